@@ -18,9 +18,10 @@ def nameOfString (s : String) : Name := bytesOfString s
 def stringOfName (n : Name) : String := asciiOfBytes n
 
 def nameSpace : List String :=
-  ["HEAD", "refs/heads/a", "refs/heads/a/b", "refs/heads/b", "refs/remotes/o/HEAD", "refs/tags/t"]
+  ["HEAD", "refs/heads/a", "refs/heads/a/b", "refs/heads/b", "refs/heads/zz", "refs/remotes/o/HEAD",
+   "refs/tags/t"]
 
-def validName (s : String) : Bool := nameSpace.contains s || s == "refs/heads/zz"
+def validName (s : String) : Bool := nameSpace.contains s
 
 def oidOfString : String → Option Oid
   | "c1" => some 1
@@ -149,6 +150,17 @@ def histOp (wk : WalkKind) (S : Store) : List String → Option (String × Optio
     if (lookup S.loose (nameOfString "HEAD")).isNone then some ("fail#" ++ dump S, some S) else
     let S' := gitPackRefs harnessEnv prune S
     some ("ok#" ++ dump S', some S')
+  | ["gitupdate-ref", del, nd, name, new, old] => do
+    let del ← (if del == "d=1" then some true else if del == "d=0" then some false else none)
+    let nd ← (if nd == "nd=1" then some true else if nd == "nd=0" then some false else none)
+    if !validName name then none
+    let new ← (if new == "-" then some none else (oidOfString new).map some)
+    let old ← (if old == "-" then some none else if old == "0" then some (some none)
+               else (oidOfString old).map fun o => some (some o))
+    if del != new.isNone then none
+    match gitUpdateRef S del nd (nameOfString name) new old with
+    | some S' => some ("ok#" ++ dump S', some S')
+    | none => some ("fail#" ++ dump S, some S)
   | ["lock", n] =>
     if n == "packed-refs" then
       if S.packedLock then some ("held#" ++ dump S, some S)
